@@ -72,6 +72,22 @@ func guardsOf(fn *ssa.Function) []guard {
 						}
 					}
 				}
+				// `int64(u) < 0` for an unsigned 64-bit u is `u >= 2^63`
+				if cv, isCv := x.X.(*ssa.Convert); isCv && (op == token.LSS || op == token.GEQ) {
+					if z, isZ := constInt(x.Y); isZ && z == 0 {
+						fb, ok1 := cv.X.Type().Underlying().(*types.Basic)
+						tb, ok2 := cv.Type().Underlying().(*types.Basic)
+						if ok1 && ok2 && fb.Kind() == types.Uint64 && tb.Kind() == types.Int64 {
+							b63, _ := new(big.Int).SetString("9223372036854775808", 10)
+							two63 := ssa.NewConst(constant.Make(b63), types.Typ[types.Uint64])
+							if op == token.LSS {
+								gs = append(gs, guard{iff: iff, x: cv.X, y: two63, op: token.GEQ})
+							} else {
+								gs = append(gs, guard{iff: iff, x: cv.X, y: two63, op: token.LSS})
+							}
+						}
+					}
+				}
 				// integer comparisons with a constant have two spellings (x > k  <=>  x >= k+1):
 				// add the other one so that either matches an obligation
 				// `x >= 2^63` on an unsigned 64-bit value is the sign test `int64(x) < 0`
